@@ -1083,6 +1083,59 @@ def gen_overlap(o):
         do_overlap_case(o, overlap_history(n, cd, pre, kinds, inter, tail, adv_before=adv_before),
                         record=not o.search() and r.chance(1, 2))
         o.count("overlap/3 calls sampled")
+    # (D) real threads (see do_threads_probe)
+    for nthreads in (2, 4, 8):
+        do_threads_probe(o, {"threads": nthreads, "per": o.scale(1500, 20000, 6000)})
+
+
+# ---- REAL threads on one FailSafe (monitor only) -------------------------------------------
+# The overlap model takes a method body as one atomic step (props/C19.json "assumptions").  For
+# the threaded requests hook that is an assumption about the interpreter: a thread switch inside
+# `self._error_counter += 1` would lose a failure.  This probe runs `threads` real threads, each
+# making `per` guarded calls that all end in a gateway error, on ONE FailSafe whose threshold is
+# exactly threads*per: every failure is consecutive, so the circuit must be open afterwards; a
+# lost update leaves it closed.  Public interface only (state_ok).
+
+def do_threads_probe(o, case):
+    import threading
+    nthreads, per = case["threads"], case["per"]
+    total = nthreads * per
+    f = build_failsafe(direct(total, 1))
+    NOW[0] = T0
+    gate = threading.Barrier(nthreads)
+    errors = []
+
+    def work():
+        try:
+            gate.wait()
+            for _ in range(per):
+                with f:
+                    if f.state_ok:
+                        raise M.fs.ProxyErrorException("gateway error")
+        except BaseException as x:  # noqa: B902
+            errors.append(type(x).__name__)
+
+    old = sys.getswitchinterval()
+    sys.setswitchinterval(1e-6)
+    try:
+        ts = [threading.Thread(target=work) for _ in range(nthreads)]
+        for t in ts:
+            t.start()
+        for t in ts:
+            t.join()
+    finally:
+        sys.setswitchinterval(old)
+    o.monitor_checked()
+    h = None
+    if errors:
+        h = Hit("raised-into-application:" + errors[0], "gateway errors never reach the application",
+                "a thread saw %s" % errors[0])
+    elif f.state_ok is not False:
+        h = Hit("not-opened:threads", "%d consecutive gateway failures (threshold %d) open the circuit" % (total, total),
+                "state_ok is True after %d threads x %d failing guarded calls on one FailSafe" % (nthreads, per))
+    if h:
+        record_hit(o, "overlap", -1, h, case)
+    o.count("overlap/real threads")
 
 
 # =============================================================================
@@ -1157,6 +1210,11 @@ HOOK_HOSTS = {       # destination classes used by call events
     "privname": (("name", 2), ("quad", "192.168.7.7")),
     "v6": (("v6", 0), ("fail",)),
     "badlabel": (("junk", 6), ("invalid",)),
+    # ONE name whose resolver answer changes between calls (public / private): the hook's filter
+    # cache beyond the stable-resolver hypothesis of C19_hook_excluded_never_contacts_gateway -- the
+    # filter is not consulted (so nothing is cached) while the circuit is open
+    "flip_pub": (("name", 5), ("quad", "93.184.216.36")),
+    "flip_priv": (("name", 5), ("quad", "10.9.8.7")),
 }
 
 
@@ -1483,6 +1541,20 @@ def gen_hook(o):
             ct = direct(n, cd) if (n + cd) % 2 else env(str(n), str(cd))
             do_hook_case(o, {"ctor": ct, "block": HOOK_BLOCK, "allow": None, "t0": T0, "events": evs}, record=rec)
             o.count("hook/events len=%d" % len(seq))
+    # one name, two resolver answers, first asked about while the circuit is open (filter not consulted:
+    # nothing may be remembered) or closed (the first answer is remembered for ever)
+    for (n, cd) in [(1, 1), (2, 1), (2, 2)]:
+        for first, second in (("flip_pub", "flip_priv"), ("flip_priv", "flip_pub")):
+            for while_open in (True, False):
+                for hdr in (None, "true"):
+                    evs = [["call", first, hdr, "ok"]] if not while_open else []
+                    evs += [["call", "pub", None, "conn"] for _ in range(n)]
+                    if while_open:
+                        evs.append(["call", first, hdr, "ok"])
+                    evs += [["tick", cd * 1000], ["call", second, None, "ok"], ["call", first, None, "ok"],
+                            ["call", second, None, "conn"]]
+                    do_hook_case(o, {"ctor": direct(n, cd), "block": HOOK_BLOCK, "allow": None, "t0": T0, "events": evs})
+                    o.count("hook/changing resolver around an open circuit")
     # destinations of every class (IPv6 literal, bad label, allow list in force, header overrides)
     hcs = list(HOOK_HOSTS)
     for i in range(o.scale(1200, 15000, 8000)):
@@ -1525,11 +1597,13 @@ def main():
            "with sub-second instants; filter: 256 first octets x boundary second octets x 3 tails, names by "
            "resolution, IPv6 / malformed / unresolvable hosts, resolver answers changing under the cache, "
            "9 x 9 allow/block lists x header flavours; hook: the same event sequences through "
-           "RequestsHook with a scripted transport; overlap: ALL interleavings of the method calls of two guarded "
+           "RequestsHook with a scripted transport, plus one name whose resolver answer changes around an open "
+           "circuit; overlap: ALL interleavings of the method calls of two guarded "
            "calls on one FailSafe x 21 unordered pairs of {clean, x-lunar-error, ConnectionError, other exception, "
            "filtered, clean-then-failing-retry} x starting count {0, 1, max-1, max (cool-down 1 ms before its end / "
            "just over)} x a following gateway error / probes at the cool-down edge, plus sampled interleavings of "
-           "three calls with clock advances (all monitored, 1 in 4 also compared with the model). "
+           "three calls with clock advances (all monitored, 1 in 4 also compared with the model), and 2/4/8 real "
+           "threads of failing guarded calls on one object (monitor only). "
            "distinct = distinct (inputs, observed outputs); "
            "non-trivial = failsafe/hook: an admissible call was kept away from the gateway; "
            "filter: the case has both routed and non-routed destinations; overlap: two calls were open at once, "
@@ -1551,6 +1625,8 @@ def main():
             do_filter_case(o, case)
         elif suite == "hook":
             do_hook_case(o, case)
+        elif "threads" in case:
+            do_threads_probe(o, case)
         elif suite == "overlap" or "schedule" in case:
             do_overlap_case(o, case)
         elif "events" in case:
